@@ -37,6 +37,27 @@ func (e *Engine) buildVC(key string, con *Contract) (res *FuncResult) {
 }
 
 func (e *Engine) buildVCx(key string, con *Contract, excl map[string]bool) (res *FuncResult) {
+	force := map[*ssa.Alloc]bool{}
+	for iter := 0; iter < 8; iter++ {
+		res = e.buildVCy(key, con, excl, force)
+		if res.X == nil || res.Err != "" {
+			return res
+		}
+		grew := false
+		for a := range res.X.escaped {
+			if !force[a] {
+				force[a] = true
+				grew = true
+			}
+		}
+		if !grew {
+			return res
+		}
+	}
+	return res
+}
+
+func (e *Engine) buildVCy(key string, con *Contract, excl map[string]bool, forceHeap map[*ssa.Alloc]bool) (res *FuncResult) {
 	res = &FuncResult{Key: key, Contract: con}
 	defer func() {
 		if r := recover(); r != nil {
@@ -59,7 +80,7 @@ func (e *Engine) buildVCx(key string, con *Contract, excl map[string]bool) (res 
 	extraDecls, extraSeen = nil, map[string]bool{}
 	defer func() { c.Extra = append([]string{}, extraDecls...) }()
 	x := &Exec{E: e, C: c, Entry: State{}, Top: fn, TopCon: con, Assumed: map[string]bool{}, Inlined: map[string]bool{},
-		UsedCon: map[string]bool{}, autoExcl: excl, Active: e.Active, nonnil: map[string]bool{}, knownLen: map[string]int{}, Locals: map[string]string{}, refEpoch: map[string]string{}, unfolded: map[string]bool{}, goalSeq: map[string]int{}}
+		UsedCon: map[string]bool{}, autoExcl: excl, Active: e.Active, nonnil: map[string]bool{}, knownLen: map[string]int{}, Locals: map[string]string{}, escaped: map[*ssa.Alloc]bool{}, forceHeap: forceHeap, refEpoch: map[string]string{}, unfolded: map[string]bool{}, goalSeq: map[string]int{}}
 	res.Ctx = c
 	if con != nil {
 		for name := range e.Epoch {
@@ -162,11 +183,17 @@ func (x *Exec) frameObligations(key string, con *Contract, env *SpecEnv, entry, 
 	allowed := map[string][]*ModTarget{}
 	whole := map[string]bool{}
 	for _, m := range con.Modifies {
+		if m.Comp == "fresh" {
+			continue
+		}
 		comps := map[string]bool{}
 		x.expandModComp(m.Comp, comps)
 		for c := range comps {
 			if _, ok := x.E.CompSorts[c]; !ok {
 				panic(fmt.Sprintf("contract error: %s modifies unknown component %s", key, c))
+			}
+			if c == "G_held" && con.Mode != "lock" {
+				continue // every function returns with the set of held locks it was entered with
 			}
 			if m.Idx == "" {
 				whole[c] = true
